@@ -23,9 +23,10 @@ type view struct {
 }
 
 // checkChain is the C11 consistency oracle, evaluated on a running chain object and the disk it
-// sits on. tag is "live" (node that never crashed), "crash" (freshly restarted prefix image) or
-// "reoffer" (restarted image after the interrupted offer was imported again). where is concrete
-// context for violation details.
+// sits on. tag is "live" (node that never crashed) or "crash" (restarted prefix image: right
+// after the restart, after the interrupted offer was imported again, and after the further
+// block); for crash images the class carries the ordering window of the crash point as a
+// suffix (cx.fam, see windowFamily). where is concrete context for violation details.
 //
 // It encodes exactly the property statement:
 //   - for all n <= head number: canonical hash, header and body exist, number matches,
@@ -42,7 +43,7 @@ func (cx *world) checkChain(tag, where string, ch *core.BlockChain, disk *simdis
 	v := &view{ok: true, canonN: map[uint64]common.Hash{}}
 	bad := func(class, format string, a ...interface{}) {
 		v.ok = false
-		r.Report(tag+"-"+class, "%s: %s", where, fmt.Sprintf(format, a...))
+		r.Report(tag+"-"+class+cx.fam, "%s: %s", where, fmt.Sprintf(format, a...))
 	}
 	head := ch.CurrentBlock()
 	v.headH = head.Hash()
